@@ -357,6 +357,38 @@ fn cases(tier: Tier) -> Vec<Case> {
             }
         }
     }
+    // ---- OB fatal-lane memory: each lane X of the legal set announces a fatal state in frame 0 (abstain), then
+    //      frame 1 = {all but X: clean | all but X and one more: lane count error | all incl. X: abstain},
+    //      frame 2 = all but X again (the memory persists)
+    for (layer, upper) in [(3u8, false), (4, true), (5, true), (6, false)] {
+        let mut cfg = if layer <= 4 { LinkCfg::ml(1, 5, upper) } else { LinkCfg::ol(1, 5, upper) };
+        cfg.fee_id = fp_model::rdh::Rdh::its_fee_id(layer, 5, upper as u8);
+        cfg.bc_step = 0x10;
+        let legal = cfg.lanes.clone();
+        let chip_ids = |id: u8| -> Vec<u8> { if (id >> 3) & 1 == 0 { (0..7).collect() } else { (8..15).collect() } };
+        for (xi, x) in legal.iter().enumerate() {
+            for second in 0..2u8 {
+                let normal = |skip: &[u8]| -> Vec<LaneSpec> { legal.iter().filter(|id| !skip.contains(id)).map(|id| ob_lane(*id, 0x22, &[ha[0]], &chip_ids(*id))).collect() };
+                let mut f0 = normal(&[]);
+                f0[xi] = LaneSpec { id: *x, chips: vec![], prefix: vec![alpide::APE_DET_TIMEOUT] };
+                let other = legal[(xi + 3) % legal.len()];
+                let f1 = if second == 0 { normal(&[*x]) } else { normal(&[*x, other]) };
+                let f2 = normal(&[*x]);
+                let mk = |lanes: Vec<LaneSpec>| FrameSpec { lanes, nodata_before: false, split: None };
+                let mut w1 = BTreeSet::new();
+                if second == 1 {
+                    w1.insert("E73".to_string());
+                }
+                v.push(Case {
+                    label: format!("layer {layer} lane {x:#04x} fatal in frame 0, frame 1 without it{}", if second == 1 { " and without another lane" } else { "" }),
+                    cfg: cfg.clone(),
+                    key: stave_key(),
+                    frames: vec![mk(f0), mk(f1), mk(f2)],
+                    want: vec![None, Some(w1), Some(BTreeSet::new())],
+                });
+            }
+        }
+    }
     // ---- OB lane forms: every mix of empty-frame / header+trailer chips in one lane x padding bytes in front of one
     //      chip, once conforming and once with a deviating bunch counter on the last chip (must be seen: E75)
     {
